@@ -136,7 +136,8 @@ def scenario(rng):
     # seeds and keys
     p["tseeds"] = gen_seeds(rng)
     p["fseeds"] = gen_seeds(rng)
-    while p["fseeds"] == p["tseeds"]:
+    # different addresses (an empty seed does not change the hash: [[35]] and [[35], []] derive the same key)
+    while [x for x in p["fseeds"] if x] == [x for x in p["tseeds"] if x]:
         p["fseeds"] = gen_seeds(rng) + [[7]]
     tfind = R.find_pda(p["tseeds"])
     ffind = R.find_pda(p["fseeds"])
@@ -334,6 +335,12 @@ def predicate(c, obs):
             if want not in cpi["seeds"]:
                 return "CPI %d signed with %s, the validated seeds with bump are %s" % (cpi["ix"], cpi["seeds"], want)
     return None
+
+
+def comparable(c):
+    """funder and target are different accounts (the property's domain; two native accounts sharing a key cannot be one ledger entry)"""
+    p = decode(c)
+    return p["funder"]["key"] != p["target"]["key"]
 
 
 def describe(c):
